@@ -508,7 +508,12 @@ def backend_writes(rep, prog, rule):
         rep.unk(rule, "Resizer|fields", "", "struct Resizer not found")
         return
     fields = prog.adts[adt[0]]["variants"][0]["fields"]
-    config = [i for i, fl in enumerate(fields) if str(fl[1]) != "std::vec::Vec<u8>"]
+    # the two copies of the selected back-end (other extra state is C09.state-fields' business)
+    config = [i for i, fl in enumerate(fields)
+              if re.match(r"^([a-z_0-9]+::)*(CpuExtensions|MulDiv)$", str(fl[1]))]
+    if len(config) < 2:
+        rep.unk(rule, "Resizer|fields", "", "the back-end fields (CpuExtensions, MulDiv) were not found")
+        return
     cname = {i: fields[i][0] for i in config}
     n = 0
     for f in sorted(prog.fns.values(), key=lambda x: x.id):
